@@ -1,7 +1,9 @@
 """C13 -- the generated JSON Schema is valid and describes what the parser does"""
 import json
 
-from utype import JsonSchemaGenerator, Options, exc
+from typing import Dict, List, Optional, Tuple, Union
+
+from utype import Field, JsonSchemaGenerator, Options, Rule, Schema, exc, types
 from utype.utils.encode import JSONEncoder
 from utype.utils.transform import type_transform
 from vt import dcspec, minijs
@@ -87,6 +89,114 @@ for _g in JSON_TYPES:
               'against JsonSchemaGenerator(T, output=True)(); both documents must be valid draft 2020-12 schemas' % ', '.join(
                   td.show(d) for d in JSON_TYPES[_g]),
        out='negation; $defs naming; format semantics')((lambda g: lambda V: _outputs(V, g))(_g))
+
+
+# ------------------------------------------------------------------ documents with shared $defs
+def _m1():
+    class Address(Schema):
+        street: str
+        city: str = 'x'
+    return Address
+
+
+def _m2():
+    class Address(Schema):
+        host: str
+        port: int = Field(ge=0, le=65535, default=0)
+    return Address
+
+
+A1, A2 = _m1(), _m2()
+
+
+class Node(Schema):
+    v: types.PositiveInt
+    w: types.PositiveInt = 1
+    kids: List['Node'] = Field(default_factory=list)
+
+
+class Customer(Schema):
+    name: str
+    home: A1
+    server: A2
+    tree: Optional[Node] = None
+    backup: Optional[A2] = None
+
+
+DEF_ROOTS = {'Customer': Customer, 'List[Customer]': List[Customer], 'Dict[str,A1]': Dict[str, A1], 'Node': Node,
+             'Union[A1,A2]': Union[A1, A2], 'Tuple[A2,A1]': Tuple[A2, A1]}
+HOMES = [{'street': 'a'}, {'street': 'a', 'city': 'b'}, {'host': 'h'}, {}]
+SERVERS = [{'host': 'h'}, {'host': 'h', 'port': '80'}, {'street': 'a'}, {'host': 'h', 'port': -1}]
+TREES = [None, {'v': 1}, {'v': '2', 'kids': [{'v': 3, 'w': 2}]}, {'v': 0}, {'v': 1, 'kids': [{'v': -1}]}]
+
+
+def refs_of(node, out):
+    if isinstance(node, dict):
+        if isinstance(node.get('$ref'), str):
+            out.append(node['$ref'])
+        for x in node.values():
+            refs_of(x, out)
+    elif isinstance(node, list):
+        for x in node:
+            refs_of(x, out)
+    return out
+
+
+@ob('outputs/shared-defs', marks=['accept', 'reject'], budget=(60, 200),
+    bounds='roots %s over two different data classes that share the class name Address, a self-referencing Node with a named '
+           'constrained type used twice, generated with a shared defs dict (document = root + $defs from get_defs()), output and '
+           'input view; every $ref resolves to a named definition, the document is a valid draft 2020-12 schema, every produced value '
+           'validates against the output document, and a definition describes the class it is referenced for (each class rejects the '
+           "other class's instances; so must its definition)" % sorted(DEF_ROOTS),
+    out='ref_prefix other than the default; def names given by the caller')
+def shared_defs(V):
+    rname = V.pick('root', sorted(DEF_ROOTS) if V.thorough else [r for r in sorted(DEF_ROOTS) if r != 'List[Customer]'])
+    T = DEF_ROOTS[rname]
+    out_view = V.bool('output')
+    with V.notrace():
+        g = JsonSchemaGenerator(T, defs={}, output=out_view)
+        root = g()
+        defs = g.get_defs()
+        doc = dict(root)
+        doc['$defs'] = defs
+    d0 = lambda: '%s output=%r: document %r' % (rname, out_view, doc)
+    V.check(all(isinstance(k, str) and k for k in defs), 'schema:definition-without-name', d0)
+    for ref in refs_of(doc, []):
+        V.check(ref.startswith('#/$defs/') and ref[len('#/$defs/'):] in defs, 'schema:unresolvable-ref', lambda: d0() + ' ref %r' % ref)
+    if not V.symbolic:
+        msg = minijs.schema_is_valid(doc)
+        V.check(msg is None, 'schema:invalid-document', lambda: d0() + ': %s' % msg)
+    need = {'Customer': 'hst', 'List[Customer]': 'hst', 'Dict[str,A1]': 'h', 'Node': 't', 'Union[A1,A2]': 'hs', 'Tuple[A2,A1]': 'hs'}[rname]
+    home = V.pick('home', HOMES) if 'h' in need else None
+    server = V.pick('server', SERVERS) if 's' in need else None
+    tree = V.pick('tree', TREES) if 't' in need else None
+    cust = {'name': 'n', 'home': home, 'server': server, 'tree': tree}
+    if need == 'hst' and V.bool('backup'):
+        cust['backup'] = server
+    x = {'Customer': cust, 'List[Customer]': [cust], 'Dict[str,A1]': {'k': home}, 'Node': tree,
+         'Union[A1,A2]': home if rname != 'Union[A1,A2]' or V.bool('first') else server, 'Tuple[A2,A1]': [server, home]}[rname]
+    try:
+        y = type_transform(x, Rule.parse_annotation(T) if not isinstance(T, type) else T)
+    except Exception:  # noqa
+        V.cover('reject')
+        return
+    j = encode(y)
+    ok = minijs.valid(doc, j)
+    if not V.symbolic:
+        lib = minijs.library_valid(doc, j)
+        if lib != ok:
+            raise RuntimeError('mini validator (%r) and jsonschema (%r) disagree on %r / %r' % (ok, lib, doc, j))
+    if out_view:
+        V.check(ok, 'schema:output-does-not-validate:shared-defs', lambda: d0() + ' ; input %r -> JSON %r' % (x, j))
+    # the definition referenced for a class describes that class: its required names are the class's own
+    for prop, cls in (('home', A1), ('server', A2)):
+        holder = defs.get('Customer', {}).get('properties', {}).get(prop)
+        if rname in ('Customer', 'List[Customer]') and holder is not None:
+            target = defs[holder['$ref'][len('#/$defs/'):]]
+            want = sorted(f.name for f in cls.__parser__.fields.values() if f.is_required(cls.__parser__.options))
+            V.check((out_view or sorted(target.get('required') or []) == want) and set(target.get('properties', {})) == set(cls.__parser__.fields),
+                    'schema:definition-of-another-class', lambda: d0() + ' ; %s -> %r' % (prop, target))
+    V.cover('accept')
 
 
 # ------------------------------------------------------------------ structure of the input schema vs parser behaviour
